@@ -159,7 +159,7 @@ TEXT = {
            "predicate (crashChecks) judges what it selects; in mode eio the k-th call fails with EIO instead, the process must survive, and the selection of the same process and of a real re-launch, "
            "and every record left in the state files, are judged by the theorem's conclusion and invariant (eioChecks, eioRecordChecks).",
   "design_ref": "DESIGN.md section 4, C04",
-  "note": "partial: durability below the system-call level (no fsync) is outside the model; read errors are not modelled; for a failed artifact operation the values a section saves are assumed not to depend on the failure (only whether it goes on) - exercised by the eio runs, not proved; 'not banned before' is proved under C02's invariant of the state before the launch (hypothesis hban), which Props/C04Ban discharges for every state reachable by a history without outside rewrites of the state files (reachable_selfBan, crash_safe_reachable).",
+  "note": "partial: durability below the system-call level (no fsync) is outside the model; read errors are not modelled; that the values a section saves do not depend on whether its removals of artifacts succeeded is proved for the fallback (tryFallBackKeep_ps), read off the code for add_patch (it gives up before saving) and exercised by the eio runs; 'not banned before' is proved under C02's invariant of the state before the launch (hypothesis hban), which Props/C04Ban discharges for every state reachable by a history without outside rewrites of the state files (reachable_selfBan, crash_safe_reachable).",
   "technique": "Lean 4 theorem (save-event semantics of every critical section, all crash points, arbitrary artifact directory) + system-call-level crash injection on the real library",
  },
  "C09": {
